@@ -60,15 +60,15 @@ reg('C18', engine='llsym',
          'and complex item types not covered.',
     technique='differential symbolic execution of LLVM IR, SMT (z3 bit-vectors + FP)')
 
-reg('C09', engine='pysym + crosshair',
-    text='The real Parser._parse_constant/_c_div are executed symbolically (proxy ints over z3 Int / 160-bit '
-         'vectors, path forking through the solver) on every operator and on depth-2 shapes with arbitrary leaves, '
-         'against a relational statement of C semantics wherever C defines the value; literal text is covered by '
-         'CrossHair on symbolic strings constrained to the C constant grammar.',
-    note='Trusted: pysym proxy semantics of Python int operators, the C-semantics oracle in harness/C09.py, '
-         'CrossHair/z3. Operands typed as long long (unsigned-suffix modular arithmetic outside); literal length '
-         'bounded (4 quick / 6 thorough).',
-    technique='symbolic execution of the real Python function via proxy values + CrossHair, SMT (z3 Int/BV/strings)')
+reg('C09', engine='pysym',
+    text='The real Parser._parse_constant/_c_div are executed symbolically (proxy ints over z3 Int / 160-bit vectors, path forking '
+         'through the solver) on every operator and on depth-2 shapes with arbitrary leaves, against a relational statement of C '
+         'semantics wherever C defines the value; literal text (decimal/octal/hex/binary/suffixes/character constants with escapes) is '
+         'a symbolic string (SymStr proxies, exact model of int()) constrained to the C constant grammar, against a reference evaluator.',
+    note='Trusted: pysym proxy semantics of Python int operators, the C-semantics oracle in harness/C09.py, the SymStr model of str '
+         'methods and int(). Operands typed as long long (unsigned-suffix modular arithmetic outside); literal length bounded '
+         '(4 quick / 6 thorough). Where true division makes the proxy give up, solver-chosen boundary models are run on the real code.',
+    technique='proxy symbolic execution of the real Python function (symbolic ints and strings), SMT (z3 Int/BV)')
 
 reg('C35', engine='pysym',
     text='The real flags_from_pkgconfig/merge_flags/call are executed on symbolic tokens (SymStr proxies: '
@@ -259,7 +259,7 @@ reg('C12', engine='llsym',
          'realize_global_int raise FFIError iff a stated cdef value differs from the compiler\'s, and otherwise return exactly '
          'the compiler\'s value (always so for unchecked "static const" constants); (2) b_complete_struct_or_union in '
          'compiler-provided mode with symbolic offsets/sizeof/alignof: with the check flag FFIError iff some number differs '
-         'from what the cdef implies, with "..." the compiler\'s numbers are recorded verbatim; (3) detect_custom_layout.',
+         'from what the cdef implies, with "..." the compiler\'s numbers are recorded verbatim; (3) detect_custom_layout; (4) the same constants used as an array length in a type string (parse_c_type): accepted iff the cdef agrees with the compiler and the value is non-negative, with the compiler\'s value.',
     note='Trusted: clang IR, llsym semantics, CPython contracts. Functions/variables plumbing is C13; import machinery, '
          'verify() and the compile step are outside.',
     technique='symbolic execution of LLVM IR (backend + run-time generated module) with the C compiler\'s answers as symbolic inputs, SMT (z3)')
